@@ -380,6 +380,8 @@ def inner_cases(fam, item, tier, seed):
                 for m in (False, True):
                     for cplx in (False, True):
                         yield dict(base, rows=rows, rank=rank, skip=skip, w=w, m=m, cplx=cplx)
+                    if m:  # a weighting mask (entries other than 0/1): multiplied in, once
+                        yield dict(base, rows=rows, rank=rank, skip=skip, w=w, m=m, cplx=False, wmask=True)
                     if w:  # operands of different kinds: complex weights on real matrices (the weights must not be cast to the factors' dtype)
                         yield dict(base, rows=rows, rank=rank, skip=skip, w=w, m=m, cplx=False, wcplx=True)
     elif fam == "inner":
@@ -432,6 +434,7 @@ def inner_cases(fam, item, tier, seed):
             for w in (False, True):
                 for cplx in (False, True):
                     yield dict(base, shape=shape, mode=mode, rank=rank, w=w, cplx=cplx)
+                yield dict(base, shape=shape, mode=mode, rank=rank, w=w, cplx=False, fcplx=True)  # real data, complex factors
     elif fam == "sample_kr":
         rows, rank, skip = item
         cap = 20000 if T else 1000  # bound on the number of explicit indices_lists per case (all of them are visited)
@@ -550,6 +553,8 @@ def run_khatri_rao(case, rn):
     rem = [mm for i, mm in enumerate(ms) if i != skip]
     weights = weights_for(Rk, seed, cplx or case.get("wcplx", False)) if w else None
     mask = mask_for(tuple(rem_rows), seed) if m else None
+    if m and case.get("wmask"):
+        mask = (mask * 2.0 - 0.5) * np.array([1.0 + (i % 3) for i in range(mask.size)]).reshape(mask.shape)  # values in {-0.5,-1,-1.5,1.5,3,4.5}: exact in binary
     rmats = [rt(mm.reshape(-1, 1)) if vectors else rt(mm) for mm in rem]
     kr = R.khatri_rao(rmats, weights=None if weights is None else [x.item() for x in weights])
     if mask is not None:
@@ -562,7 +567,7 @@ def run_khatri_rao(case, rn):
     if w:
         klass += ",weights" + ("(complex-on-real-matrices)" if case.get("wcplx") else "")
     if m:
-        klass += ",mask"
+        klass += ",mask" + ("(weighting)" if case.get("wmask") else "")
     if skip is not None and klass == "multi":
         klass += ",skip"
     desc = lambda: (f"khatri_rao([{'; '.join(brief(x) for x in ms)}], weights={None if weights is None else weights.tolist()}, "
@@ -690,10 +695,11 @@ def run_tensordot(case, rn):
 def run_mttkrp(case, rn):
     shape, mode, rank, w, cplx, seed = tuple(case["shape"]), case["mode"], case["rank"], case["w"], case["cplx"], case["seed"]
     t = val(shape, 0, cplx, seed)
-    facs = [val((s, rank), 1 + i, cplx, seed, nonzero=True) for i, s in enumerate(shape)]
+    fc = cplx or case.get("fcplx", False)
+    facs = [val((s, rank), 1 + i, fc, seed, nonzero=True) for i, s in enumerate(shape)]
     weights = weights_for(rank, seed) if w else None  # real weights: their conjugation is not demanded
     ref = ref_np(R.mttkrp(rt(t), None if weights is None else [x.item() for x in weights], [R2.conj_rt(rt(f)) for f in facs], mode))
-    klass = ("order2" if len(shape) == 2 else "order>=3") + (",weights" if w else "")
+    klass = ("order2" if len(shape) == 2 else "order>=3") + (",weights" if w else "") + (",real-tensor-complex-factors" if case.get("fcplx") else "")
     desc = lambda: (f"unfolding_dot_khatri_rao(T{brief(t)}, (weights={None if weights is None else weights.tolist()}, "
             f"[{'; '.join(brief(f) for f in facs)}]), mode={mode})")
     out = rn.both("unfolding_dot_khatri_rao", lambda f: f(t, (weights, list(facs)), mode), [ref], klass, desc)
